@@ -239,7 +239,9 @@ impl<'a, F: IVP> SolOut for DefaultSolOut<'a, F> {
                                         s = fb / fa;
                                         let p = 2.0 * xm * s;
                                         let q = 1.0 - s;
-                                        let (p, q) = if q > 0.0 { (-p, q) } else { (p, -q) };
+                                        // p >= 0 and the step is p/q (Numerical Recipes zbrent normalisation)
+                                        let q = if p > 0.0 { -q } else { q };
+                                        let p = p.abs();
                                         
                                         if 2.0 * p < (3.0 * xm * q - (tol1 * q).abs()).min((e * q).abs()) {
                                             e = d;
@@ -255,7 +257,9 @@ impl<'a, F: IVP> SolOut for DefaultSolOut<'a, F> {
                                         s = fb / fa;
                                         let p = s * (2.0 * xm * q_val * (q_val - r) - (b - a) * (r - 1.0));
                                         let q = (q_val - 1.0) * (r - 1.0) * (s - 1.0);
-                                        let (p, q) = if q > 0.0 { (-p, q) } else { (p, -q) };
+                                        // p >= 0 and the step is p/q (Numerical Recipes zbrent normalisation)
+                                        let q = if p > 0.0 { -q } else { q };
+                                        let p = p.abs();
                                         
                                         if 2.0 * p < (3.0 * xm * q - (tol1 * q).abs()).min((e * q).abs()) {
                                             e = d;
